@@ -22,9 +22,8 @@ same definitions.
   (`frameOKZ`/`frameOK`); zlib is an opaque pair of functions with `inflate (deflate x) = x` (`CodecOK`; the
   history dependence of the real deflate stream is outside the model — validated by the correspondence run
   and the direct oracle, incl. the F24 regression); text lines contain no CR/LF/NUL (`cleanLine`) and the
-  terminator is CR LF, LF or CR; an EMPTY raw/SLIP chunk ends its Message (the real sender drops the rest:
-  open finding C03-empty-chunk, mirrored as `rawEff`/`takeWhile`); "drained" = nothing in transit, nothing
-  pending.  Templating and the WebSocket handshake / receive loop are outside these theorems.
+  terminator is CR LF, LF or CR; a raw/SLIP chunk without bytes contributes nothing (the SLIP decoder drops empty
+  frames, so the SLIP unit is the non-empty chunk); "drained" = nothing in transit, nothing pending.  Templating and the WebSocket handshake / receive loop are outside these theorems.
 -/
 
 namespace Muscle.Props.C03
@@ -227,13 +226,13 @@ theorem slip_input_any_chunking (K : SlipK) (hK : K.WF) (readSize : Nat) (xs : L
   rw [this] at a2
   simpa using a2
 
-/-- **Segmentation independence, SLIP gateway**: any events; drained link ⇒ the delivered frames are exactly the chunks of
-    the queued Messages (each Message up to its first empty chunk), in order. -/
+/-- **Segmentation independence, SLIP gateway**: any events; drained link ⇒ the delivered frames are exactly the non-empty
+    chunks of the queued Messages, in order. -/
 theorem segmentation_independent_slip (K : SlipK) (hK : K.WF) (readSize : Nat) (evs : List (Ev (List Bytes)))
     (hq : (run (slipGw K readSize) { t := rawInitTx, q := [], r := slipInitRx, out := [] } evs).q = [])
     (hp : rawPending (run (slipGw K readSize) { t := rawInitTx, q := [], r := slipInitRx, out := [] } evs).t = []) :
     (run (slipGw K readSize) { t := rawInitTx, q := [], r := slipInitRx, out := [] } evs).out =
-      ((addsOf evs).map (fun m => m.takeWhile (fun c => !c.isEmpty))).flatten := by
+      ((addsOf evs).map (fun m => m.filter (fun c => !c.isEmpty))).flatten := by
   have h := drained_delivers_all (G := slipGw K readSize) (slipRx_refines K readSize) (rawTx_refines (slipMsg K))
     rawInitTx slipInitRx rfl trivial evs (fun _ _ _ _ => trivial) hq hp
   have hs := slip_stream_roundtrip K hK (addsOf evs)
@@ -253,16 +252,20 @@ theorem raw_tx_conserves (enc : List Bytes → List Bytes) :
   rawTx_refines enc
 
 /-- **Segmentation independence, raw gateway (immediate-forward mode)**: if the link ends drained, the delivered
-    bytes are exactly the bytes of the queued chunks (up to the first empty chunk of each Message), in order. -/
+    bytes are exactly the bytes of all queued chunks, in order. -/
 theorem segmentation_independent_raw (readSize : Nat) (evs : List (Ev (List Bytes)))
     (hq : (run (rawGw readSize 0) { t := rawInitTx, q := [], r := rawInitRx, out := [] } evs).q = [])
     (hp : rawPending (run (rawGw readSize 0) { t := rawInitTx, q := [], r := rawInitRx, out := [] } evs).t = []) :
     (run (rawGw readSize 0) { t := rawInitTx, q := [], r := rawInitRx, out := [] } evs).out.flatten =
-      streamOf rawEff (addsOf evs) := by
+      (addsOf evs).flatten.flatten := by
   have h := drained_delivers_all (G := rawGw readSize 0) (rawRx_refines readSize 0) (rawTx_refines id)
     rawInitTx rawInitRx rfl (fun h => absurd rfl h) evs (fun _ _ _ _ => trivial) hq hp
   rw [h, rawRead0]
-  rfl
+  show streamOf rawEff (addsOf evs) = _
+  generalize addsOf evs = ms
+  induction ms with
+  | nil => rfl
+  | cons m r ih => simp [streamOf, rawEff, ih]
 
 /-! ## WebSocket frame kernels (`CreateReplyFrame` vs. the header logic and unmasking loop of `DoInputImplementation`) -/
 
